@@ -16,6 +16,16 @@ _TRACE = []
 
 
 # ------------------------------------------------------------------ implementation side
+def pyres(pairs):
+    """the resource value 0 of a case stands for Python's None (a resource may well BE None: an optional service that is
+    switched off); every other value is the number itself"""
+    return dict((n, None if v == 0 else v) for n, v in pairs)
+
+
+def unpy(v):
+    return 0 if v is None else v
+
+
 def embed(app, prefix, inner, rebind, inherit, index):
     """the two documented spellings of one embedding, chosen by the prefix text: the options on the SubApplication, or
     the options given to add() together with a plain (prefix, application) pair"""
@@ -97,18 +107,23 @@ class Lab(object):
             self.factories[key] = render
         return self.factories[key]
 
-    def route(self, d):
-        from clastic import Route, Response
+    @staticmethod
+    def decorated(d):
+        # every fourth declaration: an endpoint wrapped by clastic_decorator (it carries its declared signature with it)
+        # that takes the resource 'ra' IF there is one (default otherwise)
+        return d['key'] % 4 == 0 and 'ra' not in d['needs'] and 'err' not in d['pattern']
+
+    def make_ep(self, d):
+        from clastic import Response
         from clastic.errors import NotFound
         k = d['key']
-        if k in self.routes:
-            return self.routes[k]
         needs = list(d['needs'])
         plain = d['render'] is None
         is_err = 'err' in d['pattern']
+        dec = self.decorated(d)
         ns = {}
-        body = "'K%d;' + ';'.join('%%s=%%s' %% kv for kv in [%s])" % (k, ', '.join("('%s', %s)" % (n, n) for n in needs))
-        src = 'def ep(%s):\n    body = %s\n' % (', '.join(needs), body)
+        body = "'K%d;' + ';'.join('%%s=%%s' %% kv for kv in [%s])" % (k, ', '.join("('%s', %s)" % (n, n) for n in needs + (['ra'] if dec else [])))
+        src = 'def ep(%s):\n    body = %s\n' % (', '.join(needs + (["ra='dflt'"] if dec else [])), body)
         if is_err:
             src += '    raise _NF(body)\n'
         elif plain:
@@ -116,6 +131,22 @@ class Lab(object):
         else:
             src += '    return {"body": body}\n'
         exec(src, {'_R': Response, '_NF': NotFound}, ns)
+        if dec:
+            from clastic.decorators import clastic_decorator
+
+            def passthrough(fn):
+                def wrapper(*a, **kw):
+                    return fn(*a, **kw)
+                return wrapper
+            return clastic_decorator(passthrough)(ns['ep'])
+        return ns['ep']
+
+    def route(self, d):
+        from clastic import Route
+        k = d['key']
+        if k in self.routes:
+            return self.routes[k]
+        ep = self.make_ep(d)
         kw = {}
         if d['methods'] is not None:
             kw['methods'] = d['methods']
@@ -124,15 +155,15 @@ class Lab(object):
             mws = iter(mws)                   # any iterable will do for the argument: a filter(), a generator expression
         elif k % 3 == 2:
             mws = tuple(mws)
-        rt = Route(d['pattern'], ns['ep'], self.render_obj(d['render']), middlewares=mws,
-                   resources=dict(d['resources']), slash_mode=d['mode'], **kw)
+        rt = Route(d['pattern'], ep, self.render_obj(d['render']), middlewares=mws,
+                   resources=pyres(d['resources']), slash_mode=d['mode'], **kw)
         self.routes[k] = rt
         self.decls[k] = d
         return rt
 
     def make_app(self, env, entries):
         from clastic import Application
-        app = Application([], resources=dict(env['resources']), middlewares=[self.mw(m) for m in env['mws']],
+        app = Application([], resources=pyres(env['resources']), middlewares=[self.mw(m) for m in env['mws']],
                           render_factory=self.factory(env['factory']), error_handler=self.handler(env['handler']),
                           slash_mode=env['mode'])
         app._wid = env['id']
@@ -169,7 +200,7 @@ class Lab(object):
             key = next((k for k, r in self.routes.items() if br.unbound_route is r), -1)
             h = getattr(br.render_error, '__self__', None)
             out.append([key, br.pattern, br.slash_mode, [m.inst for m in br.middlewares],
-                        sorted([n, v] for n, v in br.resources.items()), self.render_repr(br.render),
+                        sorted([n, unpy(v)] for n, v in br.resources.items()), self.render_repr(br.render),
                         getattr(h, 'hid', -1), [getattr(a, '_wid', -1) for a in br.bound_apps]])
         return out
 
@@ -177,7 +208,7 @@ class Lab(object):
         out = {}
         for k, r in sorted(self.routes.items()):
             out[str(k)] = [r.pattern, sorted(r.methods) if r.methods else None, [m.inst for m in r.middlewares],
-                           sorted(r.resources.items()), r.slash_mode, self.render_repr(r.render) if callable(r.render) else repr(r.render)]
+                           sorted((n, unpy(v)) for n, v in r.resources.items()), r.slash_mode, self.render_repr(r.render) if callable(r.render) else repr(r.render)]
         return out
 
     def probe(self, app):
@@ -239,7 +270,7 @@ def impl(case):
             rec['detail'] = str(e)[:200]
         rec['world'] = dict((str(i), lab.snapshot(a)) for i, a in sorted(lab.apps.items()))
         # what an application was constructed with never changes, whatever is added to it or wherever it is embedded
-        rec['appstate'] = dict((str(i), [[getattr(m, 'inst', repr(m)) for m in a.middlewares], sorted(a.resources.items()),
+        rec['appstate'] = dict((str(i), [[getattr(m, 'inst', repr(m)) for m in a.middlewares], sorted((n, unpy(v)) for n, v in a.resources.items()),
                                          a.slash_mode]) for i, a in sorted(lab.apps.items()))
         rec['probes'] = dict((str(i), lab.probe(a)) for i, a in sorted(lab.apps.items()))
         after_routes = lab.route_state()
@@ -329,7 +360,7 @@ def build_flat(lab, case, tid, oks):
         return None
     env, entries = tree
     flat = flatten_entries([(env, None, None, None)], entries)
-    app = Application([], resources=dict(env['resources']), middlewares=[lab.mw(m) for m in env['mws']],
+    app = Application([], resources=pyres(env['resources']), middlewares=[lab.mw(m) for m in env['mws']],
                       render_factory=None, error_handler=lab.handler(env['handler']), slash_mode=env['mode'])
     for d, rinh, levels in flat:
         # levels: innermost application first ... outermost (= env) last
@@ -350,8 +381,8 @@ def build_flat(lab, case, tid, oks):
         # resources of all levels
         res = {}
         for l in reversed(levels[:-1]):
-            res.update(dict(l[0]['resources']))
-        res.update(dict(d['resources']))
+            res.update(pyres(l[0]['resources']))
+        res.update(pyres(d['resources']))
         # the serving (outermost) application's value wins for a name it also defines: the flat declaration simply does
         # not define such a name further in (declaring it again at route level would re-create the shadowing question)
         res = dict((k, v) for k, v in res.items() if k not in dict(env['resources']))
@@ -376,7 +407,9 @@ def build_flat(lab, case, tid, oks):
                 if (rebind or cur is None) and cand is not None:
                     cur = cand
             render = lab.factory(cur)(rn[1]) if cur is not None else None
-        ep = lab.route(d).endpoint
+        # a FRESH function for the wrapped endpoints: whatever an earlier binding did to the one the nested tree uses
+        # must not be inherited by the reference declaration
+        ep = lab.make_ep(d) if lab.decorated(d) else lab.route(d).endpoint
         kw = {}
         if d['methods'] is not None:
             kw['methods'] = d['methods']
@@ -561,7 +594,7 @@ class Gen(object):
         res = []
         for n in r.sample(['ra', 'rb', 'rc', 'rd'], r.choice([0, 1, 2])):
             self.val += 1
-            res.append([n, self.val])
+            res.append([n, 0 if r.random() < 0.25 else self.val])
         return {'id': self.app, 'resources': res, 'mws': self.mws(r.choice([0, 0, 1, 2]), self.types), 'mode': r.choice(MODES),
                 'handler': r.choice([1, 2, 3]), 'factory': r.choice([None, None, 1, 2])}
 
